@@ -22,6 +22,17 @@ def gen_max_color(rng, i=None):
     n_glyphs = [4, 3, 3, 1, 4, 3, 4, 2][i % 8]
     share = [True, False, True, False, True, False, False, False][i % 8]
     glyphs = e2e.gen_glyphset(rng, n_glyphs=n_glyphs, gradients=fmt != "glyf_colr_0", groups=fmt == "glyf_colr_1")
+    for _ in range(40):
+        # with --bitmaps a 2:1 viewBox renders 256 px wide at the default resolution, which
+        # CBDT cannot hold (rejected, as C14 allows): keep those out of the bitmap cases
+        if i % 8 not in (1, 4, 5) or all(g.viewbox[2] <= 1.5 * g.viewbox[3] for g in glyphs):
+            break
+        glyphs = e2e.gen_glyphset(rng, n_glyphs=n_glyphs, gradients=fmt != "glyf_colr_0", groups=fmt == "glyf_colr_1")
+    if i % 8 == 4:
+        # a source that paints nothing sits between the others: its glyph is no colour glyph,
+        # so the colour glyphs do not form one run of consecutive glyph ids
+        # (index 2 gets a glyph name that sorts between the others, see the codepoints below)
+        glyphs[2].items = []
     if len(glyphs) >= 3 and share:
         # the first and the last glyph share a shape that the ones in between do not have
         # (OT-SVG keeps sharing glyphs in one document: the glyph order must change)
@@ -37,12 +48,12 @@ def gen_max_color(rng, i=None):
         # input order deliberately unlike glyph-name order
         cps.sort(key=lambda c: glyph_name((c,)), reverse=True)
         cps[0], cps[1] = cps[1], cps[0]
-    for i, g in enumerate(glyphs):
-        g.codepoints = (cps[i],)
+    for k, g in enumerate(glyphs):
+        g.codepoints = (cps[k],)
     return {
         "glyphs": glyphs,
         "overrides": dict(color_format=fmt, output_file="in.ttf", keep_glyph_names=rng.random() < 0.5, _layout=len(glyphs) >= 3 and i % 8 in (0, 2, 5, 6)),
-        "bitmaps": rng.random() < 0.35,
+        "bitmaps": i % 8 in (1, 4, 5),
         "keep_names": rng.random() < 0.5,
     }
 
@@ -182,6 +193,11 @@ def max_color_problems(glyphs, overrides, bitmaps, keep_names, result):
         if fi["hmtx"][ni][0] != fo["hmtx"][no][0]:
             bad.append((hex(cp), "advance changed", fi["hmtx"][ni][0], fo["hmtx"][no][0]))
         adv = fo["hmtx"][no][0]
+        if not g.items:
+            # a source that paints nothing: no colour glyph, nothing to compare
+            if bitmaps and any(no in data for data in fo["CBDT"].strikeData):
+                bad.append((hex(cp), "bitmap for a glyph that paints nothing"))
+            continue
         F = e2e.placement(g.viewbox, cfg.ascender, cfg.descender, adv, tuple(cfg.transform))
         s = (cfg.ascender - cfg.descender) / g.viewbox[3]
         margin = (4.0 + 0.4 * s) / s
@@ -205,7 +221,7 @@ def max_color_problems(glyphs, overrides, bitmaps, keep_names, result):
                     bad.append((hex(cp), label, p, a, x))
         if bitmaps:
             found = sum(1 for data in fo["CBDT"].strikeData if no in data)
-            if found != 1:
+            if found != (1 if g.items else 0):
                 bad.append((hex(cp), "bitmaps for glyph", found))
     return bad[:6]
 
@@ -213,13 +229,24 @@ def max_color_problems(glyphs, overrides, bitmaps, keep_names, result):
 # ---------------------------------------------------------------------------- C08
 
 
+_DET_CASES = [
+    ("glyf_colr_1", "cwd"),
+    ("untouchedsvg", "build-dir-in-src"),
+    ("picosvg", "hash-seed"),
+    ("glyf_colr_0", "argv-order"),
+    ("untouchedsvg", "cwd"),
+    ("glyf_colr_1", "jobs"),
+    ("picosvg", "build-dir"),
+    ("glyf_colr_1", "hash-seed"),
+]
+
+
 def gen_determinism(rng, i=None):
-    fmt = rng.choice(["glyf_colr_1", "glyf_colr_1", "picosvg", "glyf_colr_0"])
+    # stratified: every run of >= 8 cases varies each factor, on vector, OT-SVG and untouched-SVG builds
+    fmt, vary = _DET_CASES[i % len(_DET_CASES)] if i is not None else rng.choice(_DET_CASES)
     glyphs = e2e.gen_glyphset(rng, n_glyphs=rng.randint(2, 4), gradients=fmt != "glyf_colr_0", groups=fmt == "glyf_colr_1")
-    for i, g in enumerate(glyphs):
-        g.codepoints = (0x1F600 + i,)
-    kinds = ["cwd", "argv-order", "hash-seed", "build-dir", "jobs", "cwd", "hash-seed", "argv-order"]
-    vary = kinds[i % len(kinds)] if i is not None else rng.choice(kinds)
+    for k, g in enumerate(glyphs):
+        g.codepoints = (0x1F600 + k,)
     return {"glyphs": glyphs, "fmt": fmt, "vary": vary, "seed": rng.randrange(1 << 20)}
 
 
@@ -272,7 +299,11 @@ def run_twice(glyphs, fmt, vary, seed):
             env2["PYTHONHASHSEED"] = str(rng.randint(2, 9999))
         elif vary == "build-dir":
             b2 = os.path.join(d, "deep", "er", "dir", "b")
-            os.makedirs(os.path.dirname(b2))
+            os.makedirs(os.path.dirname(b2), exist_ok=True)
+        elif vary == "build-dir-in-src":
+            # inside the source directory that sorts first (paths relative to the build
+            # directory then look different for sources next to it and sources elsewhere)
+            b2 = os.path.join(d, "src", "d1", "out")
         elif vary == "cwd":
             # the same files, named relative to another working directory
             cands = [os.path.join(d, "elsewhere"), os.path.join(d, "src", "d1"), os.path.join(d, "src", "d2"), os.path.join(d, "src")]
@@ -287,3 +318,81 @@ def run_twice(glyphs, fmt, vary, seed):
         if b is None:
             return {"error": err}
         return {"same": a == b, "len": (len(a), len(b))}
+
+
+# ---------------------------------------------------------------------------- glue_together._copy_cbdt
+
+
+def gen_copy_cbdt(rng, i=None):
+    """colour glyphs interrupted by glyphs that paint nothing: the bitmap strikes have to be
+    re-sharded into several runs of consecutive glyph ids"""
+    import e2e2
+
+    if i is None:
+        i = rng.randrange(4)
+    pattern = [[1, 0, 1], [1, 1, 0, 1], [1, 0, 1, 0, 1], [1, 1, 1]][i % 4]
+    glyphs = []
+    for k, colour in enumerate(pattern):
+        g = e2e2._simple_glyph(rng, (0xE000 + k,))
+        if not colour:
+            g.items = []
+        glyphs.append(g)
+    pngs = [e2e2._png(64, 64, (20 + 50 * k % 230, 200 - 40 * k % 200, 10 * k % 250)) if c else None for k, c in enumerate(pattern)]
+    return {"glyphs": glyphs, "pngs": pngs}
+
+
+def run_copy_cbdt(glyphs, pngs):
+    import e2e2
+    from fontTools import ttLib
+    from nanoemoji import glue_together
+
+    cfg = e2e.default_config(color_format="glyf_colr_1", output_file="t.ttf", keep_glyph_names=True)
+    _, target, _, _ = e2e.build(glyphs, cfg)
+    coloured = [(g, p) for g, p in zip(glyphs, pngs) if p is not None]
+    donor = e2e2.build_any([g for g, _ in coloured], dict(color_format="cbdt", output_file="d.ttf", bitmap_resolution=64, keep_glyph_names=True, _pngs=[p for _, p in coloured]))["font"]
+    glue_together._copy_cbdt(target, donor)
+    buf = io.BytesIO()
+    target.save(buf)
+    data = buf.getvalue()
+    font = ttLib.TTFont(io.BytesIO(data), lazy=False)
+    buf2 = io.BytesIO()
+    font.save(buf2)
+    again = ttLib.TTFont(io.BytesIO(buf2.getvalue()), lazy=False)
+    return {"font": font, "again": again}
+
+
+def copy_cbdt_problems(glyphs, pngs, result):
+    from nanoemoji.glyph import glyph_name
+
+    font, again = result["font"], result["again"]
+    bad = []
+    order = font.getGlyphOrder()
+    strikes = list(zip(font["CBLC"].strikes, font["CBDT"].strikeData))
+    covered = {}
+    for st, data in strikes:
+        lo, hi = st.bitmapSizeTable.startGlyphIndex, st.bitmapSizeTable.endGlyphIndex
+        names = [n for sub in st.indexSubTables for n in sub.names]
+        gids = [order.index(n) for n in names]
+        if gids != list(range(lo, hi + 1)):
+            bad.append(("strike does not index one run of consecutive glyph ids", (lo, hi), gids))
+        if set(names) != set(data):
+            bad.append(("strike index and strike data disagree", sorted(names), sorted(data)))
+        for n in names:
+            covered[n] = covered.get(n, 0) + 1
+    for g, p in zip(glyphs, pngs):
+        n = glyph_name(g.codepoints)
+        if p is None:
+            if covered.get(n):
+                bad.append((n, "bitmap for a glyph that paints nothing"))
+            continue
+        if covered.get(n) != 1:
+            bad.append((n, "bitmaps for glyph", covered.get(n, 0)))
+            continue
+        img = [bytes(data[n].imageData) for _, data in strikes if n in data]
+        if img != [p]:
+            bad.append((n, "image bytes differ"))
+    a = {n: bytes(d[n].imageData) for d in font["CBDT"].strikeData for n in d}
+    b = {n: bytes(d[n].imageData) for d in again["CBDT"].strikeData for n in d}
+    if a != b:
+        bad.append(("bitmaps change on re-save", sorted(set(a) ^ set(b))))
+    return bad
